@@ -1244,7 +1244,7 @@ pub fn orbit_pass(ctx: &Ctx) -> Acc {
         acc.add("orbit_routings", routed.len() as u64);
         let ne = case.g.ne();
         let sectors = all_sectors(ne);
-        let roles = Roles { u: false, xi: true, p: false, ab: false, xi_moderate: true, xi_ladder: true };
+        let roles = Roles { u: false, xi: true, p: false, ab: false, xi_moderate: true, xi_ladder: prop == "C08" || tier == Tier::Thorough };
         let max_sectors = (tier.pick(24, 120) / (case.nl * case.nl).max(1)).max(2);
         let sstride = (sectors.len() + max_sectors - 1) / max_sectors;
         for (si, order) in sectors.iter().enumerate() {
